@@ -54,6 +54,7 @@ fn main() {
         ("drive", "families") => props::families::drive(&args),
         ("drive", "bigsst") => props::bigsst::drive(&args),
         ("replay", "datatype") => props::datatype::replay(&args),
+        ("replay", "dims") => props::datatype::replay_dims(&args),
         ("replay", "stored_formula") => props::stored_formula::replay(&args),
         ("drive", "stored_formula") => props::stored_formula::drive(&args),
         ("replay", "bin_text") => props::bin_text::replay(&args),
